@@ -119,7 +119,7 @@ theorem leaf_comb_refines (hfd : l.finalDom = none) (acc : Env) (hA : EnvN D.ctx
     (applyWrites D.ctx snap (Prog.listWrites D.ctx snap l.prog) base) acc
   apply env_ext c1 m1
   intro i b hi hb
-  have hmask := progMask_drives D.ctx l.prog htw hl.parts i b hi hb
+  have hmask := progMask_drives D.ctx l.prog htw i b
   unfold progMask at hmask
   rw [c2 i b hi hb, m2 i b hi hb, hmask]
   cases hdr : progDrives D.ctx l.prog i b with
